@@ -26,7 +26,9 @@ import (
 	pb "github.com/marekgalovic/anndb/protobuf"
 	"github.com/marekgalovic/anndb/storage"
 	"github.com/golang/protobuf/proto"
+	"github.com/coreos/etcd/raft/raftpb"
 	"github.com/marekgalovic/anndb/storage/raft"
+	"github.com/marekgalovic/anndb/storage/wal"
 	uuid "github.com/satori/go.uuid"
 	_ "verifharness/internal/hx"
 )
@@ -37,7 +39,8 @@ import (
 // (what a restart replays).  Entries proposed by OTHER nodes arrive through the same log: "fcreate:N" = a
 // dataset whose single partition is hosted on node N only, "pnode-N" / "pnode+N" = node N is removed from /
 // added to the replica set of the last such partition; "rcreate:R:n1,n2" = a dataset with replication factor R whose
-// partition has the replicas n1,n2 (a replayed catalogue: the peers are announced afterwards) (what a partition leader's allocator proposes when it
+// partition has the replicas n1,n2 (a replayed catalogue: the peers are announced afterwards); "rcreate!:..." = the same with a
+// stored raft snapshot that does not load (the partition's group fails to start); "rdelete" = that dataset is deleted (what a partition leader's allocator proposes when it
 // hears that a node left, or finds the partition under-replicated).
 type Scenario struct {
 	Name  string   `json:"name"`
@@ -273,10 +276,16 @@ func main() {
 				Partitions: []*pb.Partition{{Id: fpart.Bytes(), NodeIds: []uint64{n}}}})
 			pd, _ := proto.Marshal(&pb.DatasetManagerChange{Type: pb.DatasetManagerChangeType_DatasetManagerCreateDataset, NotificationId: uuid.NewV4().Bytes(), Data: dd})
 			g.push(entry{data: pd})
-		case strings.HasPrefix(st, "rcreate:"):
+		case st == "rdelete":
+			// the dataset of the last rcreate / fcreate is deleted (an entry proposed by another node)
+			nsteps++
+			pd, _ := proto.Marshal(&pb.DatasetManagerChange{Type: pb.DatasetManagerChangeType_DatasetManagerDeleteDataset, NotificationId: uuid.NewV4().Bytes(), Data: fds.Bytes()})
+			g.push(entry{data: pd})
+		case strings.HasPrefix(st, "rcreate:"), strings.HasPrefix(st, "rcreate!:"):
 			// what a restart replays: a dataset of the catalogue with replication factor R whose partition already
 			// has the listed replicas - the peers are announced to the fresh cluster.Conn only afterwards
 			parts := strings.Split(st, ":")
+			corrupt := strings.HasPrefix(st, "rcreate!")
 			var r uint32
 			fmt.Sscanf(parts[1], "%d", &r)
 			var ns []uint64
@@ -287,6 +296,13 @@ func main() {
 			}
 			nsteps++
 			fds, fpart = uuid.NewV4(), uuid.NewV4()
+			if corrupt {
+				// "rcreate!": the replica's raft store holds a snapshot the index cannot load (truncated payload): the
+				// group does not start; the allocator goes on without it
+				w := wal.NewBadgerWAL(db, fpart)
+				w.Save(raftpb.HardState{Term: 1, Commit: 5}, nil, raftpb.Snapshot{Data: []byte{1, 2, 3, 4, 5, 6, 7},
+					Metadata: raftpb.SnapshotMetadata{Index: 5, Term: 1, ConfState: raftpb.ConfState{Nodes: ns}}})
+			}
 			dd, _ := proto.Marshal(&pb.Dataset{Id: fds.Bytes(), Dimension: 2, Space: pb.Space_Euclidean, PartitionCount: 1, ReplicationFactor: r,
 				Partitions: []*pb.Partition{{Id: fpart.Bytes(), NodeIds: ns}}})
 			pd, _ := proto.Marshal(&pb.DatasetManagerChange{Type: pb.DatasetManagerChangeType_DatasetManagerCreateDataset, NotificationId: uuid.NewV4().Bytes(), Data: dd})
